@@ -13,6 +13,9 @@ import (
 	"encoding/json"
 	"fmt"
 	"math/rand"
+	"os"
+	"os/exec"
+	"path/filepath"
 	"sort"
 	"strings"
 	"sync"
@@ -288,6 +291,121 @@ func reductions(ts []T) [][]T {
 	return out
 }
 
+// representative maps a kind to the canonical representative of its class
+// (used only after no smaller tree fails, so that one root cause is not
+// reported once per receiving callee): every block-less call becomes a plain
+// slot callee, every generated callee with a block the plain slot callee with
+// a block (ign for callees that do not render it). Hand-written wrappers with
+// a block are never renamed: they are distinct code paths.
+var representative = map[string]string{
+	"twice-": "slot-", "pass-": "slot-", "after-": "slot-", "legacy-": "slot-", "fnget-": "slot-", "once-": "slot-",
+	"flush-": "slot-", "inner-": "slot-", "ign-": "slot-", "fnign-": "slot-", "oncec-": "slot-", "join-": "slot-",
+	"twice+": "slot+", "pass+": "slot+", "after+": "slot+", "inner+": "ign+",
+}
+
+// renamings returns every forest obtained by renaming one node to its class
+// representative (same size; strictly fewer non-representative kinds).
+func renamings(ts []T) [][]T {
+	var out [][]T
+	var rec func(cur []T, rebuild func([]T) []T)
+	rec = func(cur []T, rebuild func([]T) []T) {
+		for i := range cur {
+			i := i
+			if rep, ok := representative[cur[i].K]; ok && !(isJoin(cur[i].K) && len(cur[i].Args) > 0) {
+				d := append([]T{}, cur...)
+				d[i].K = rep
+				out = append(out, rebuild(d))
+			}
+			rec(cur[i].Kids, func(n []T) []T {
+				c := append([]T{}, cur...)
+				c[i].Kids = n
+				return rebuild(c)
+			})
+			rec(cur[i].Args, func(n []T) []T {
+				c := append([]T{}, cur...)
+				c[i].Args = n
+				return rebuild(c)
+			})
+		}
+	}
+	rec(ts, func(n []T) []T { return clone(n) })
+	return out
+}
+
+// structToks splits a structure string into `kind#m[` and `]` tokens.
+func structToks(s string) []string {
+	var out []string
+	start := 0
+	for i := 0; i < len(s); i++ {
+		switch s[i] {
+		case '[':
+			out = append(out, s[start:i+1])
+			start = i + 1
+		case ']':
+			if start < i {
+				out = append(out, s[start:i])
+			}
+			out = append(out, "]")
+			start = i + 1
+		}
+	}
+	if start < len(s) {
+		out = append(out, s[start:])
+	}
+	return out
+}
+
+func tokMarker(t string) string {
+	i := strings.IndexByte(t, '#')
+	if i < 0 || !strings.HasSuffix(t, "[") {
+		return ""
+	}
+	return strings.TrimSuffix(t[i+1:len(t)-1], ".i")
+}
+
+// blameSlice keeps only the nodes named at the first divergence between the
+// expected and the rendered structure (the diverging element on either side
+// and the elements enclosing it) together with their ancestors.
+func blameSlice(f []T, exp, obs string) []T {
+	te, to := structToks(exp), structToks(obs)
+	i := 0
+	for i < len(te) && i < len(to) && te[i] == to[i] {
+		i++
+	}
+	keep := map[string]bool{}
+	for _, ts := range [][]string{te, to} {
+		var stack []string
+		for j := 0; j < i && j < len(ts); j++ {
+			if ts[j] == "]" {
+				if len(stack) > 0 {
+					stack = stack[:len(stack)-1]
+				}
+			} else if strings.HasSuffix(ts[j], "[") {
+				stack = append(stack, tokMarker(ts[j]))
+			}
+		}
+		for _, m := range stack {
+			keep[m] = true
+		}
+		if i < len(ts) {
+			keep[tokMarker(ts[i])] = true
+		}
+	}
+	delete(keep, "")
+	var prune func(ts []T) []T
+	prune = func(ts []T) []T {
+		var out []T
+		for _, t := range ts {
+			t.Kids, t.Args = prune(t.Kids), prune(t.Args)
+			if keep[t.M] || len(t.Kids)+len(t.Args) > 0 {
+				out = append(out, t)
+			}
+		}
+		return out
+	}
+	return prune(clone(f))
+}
+
 // nontrivial: the tree contains a call with a block whose callee is a
 // hand-written wrapper or does not render the block, followed (later in
 // preorder: a later sibling or a descendant) by a call without a block to a
@@ -423,9 +541,39 @@ type result struct {
 }
 
 type engine struct {
-	c   *core.Ctx
-	p   *corpus.Pkg
-	bin string
+	c     *core.Ctx
+	p     *corpus.Pkg
+	bin   string
+	cache map[string]string // canonical tree text -> rendered structure
+}
+
+// eval returns the rendered structure of canonical forests, rendering only
+// those not seen before.
+func (e *engine) eval(fs [][]T) []string {
+	var todo [][]T
+	var todoKeys []string
+	seen := map[string]bool{}
+	keys := make([]string, len(fs))
+	for i, f := range fs {
+		keys[i] = key(f)
+		if _, ok := e.cache[keys[i]]; !ok && !seen[keys[i]] {
+			seen[keys[i]] = true
+			todo = append(todo, f)
+			todoKeys = append(todoKeys, keys[i])
+		}
+	}
+	for i, o := range e.run(todo) {
+		e.cache[todoKeys[i]] = o
+	}
+	out := make([]string, len(fs))
+	for i := range fs {
+		out[i] = e.cache[keys[i]]
+	}
+	return out
+}
+
+func fails(f []T, obs string) bool {
+	return obs != expected(f) && !strings.HasPrefix(obs, "INCONCLUSIVE")
 }
 
 func build(c *core.Ctx) *engine {
@@ -435,11 +583,18 @@ func build(c *core.Ctx) *engine {
 	if out, err := p.Generate(); err != nil {
 		core.Infra("templ generate failed for the C13 interpreter: %v\n%s", err, corpus.Tail(out, 2000))
 	}
-	bin, out, err := p.Build(false, ".")
-	if err != nil {
-		core.Infra("go build failed for the C13 interpreter: %v\n%s", err, corpus.Tail(out, 3000))
+	// -gcflags=-l (no inlining in the scratch main package only): with
+	// inlining the nested block closures of the interpreter are duplicated
+	// ~20000 times and the build takes minutes instead of seconds. The templ
+	// packages under test are compiled as usual.
+	bin := filepath.Join(p.Dir, "driver.bin")
+	cmd := exec.Command("go", "build", "-tags", "verif", "-gcflags=-l", "-o", bin, ".")
+	cmd.Dir = p.Dir
+	cmd.Env = corpus.Env()
+	if out, err := cmd.CombinedOutput(); err != nil {
+		core.Infra("go build failed for the C13 interpreter: %v\n%s", err, corpus.Tail(string(out), 3000))
 	}
-	return &engine{c: c, p: p, bin: bin}
+	return &engine{c: c, p: p, bin: bin, cache: map[string]string{}}
 }
 
 // run renders all forests (in parallel driver processes) and returns, per
@@ -529,17 +684,30 @@ func firstLines(s string, n int) string {
 	return strings.Join(ls, " | ")
 }
 
-// shrinkAll reduces every failing forest to a local minimum (no one-step
-// reduction still fails), all forests in lock step so that each round is one
-// batch of driver work; forests that become equal are merged.
-func (e *engine) shrinkAll(failing [][]T) (min [][]T, obs []string) {
+// shrinkAll reduces every failing forest to a canonical witness, all forests
+// in lock step so that each round is one batch of driver work; forests that
+// become equal are merged. Steps: (1) blame slice, kept if it still fails;
+// (2) greedy one-step size reductions until none fails; (3) renaming of kinds
+// to class representatives while the tree still fails, then (2) again.
+func (e *engine) shrinkAll(failing [][]T, obsFailing []string) (min [][]T, obs []string) {
 	cur := map[string][]T{}
-	for _, f := range failing {
-		f = canon(f)
+	var slices [][]T
+	for i, f := range failing {
+		slices = append(slices, canon(blameSlice(f, expected(f), obsFailing[i])))
+	}
+	so := e.eval(slices)
+	sliced := 0
+	for i, f := range failing {
+		if len(slices[i]) > 0 && fails(slices[i], so[i]) {
+			f = slices[i]
+			sliced++
+		}
 		cur[key(f)] = f
 	}
+	dbg("blame slices that still fail: %d of %d; distinct %d", sliced, len(failing), len(cur))
 	done := map[string][]T{}
-	for round := 0; len(cur) > 0 && round < 200; round++ {
+	for round := 0; len(cur) > 0 && round < 400; round++ {
+		dbg("shrink round %d: %d forests", round, len(cur))
 		keys := make([]string, 0, len(cur))
 		for k := range cur {
 			keys = append(keys, k)
@@ -547,23 +715,24 @@ func (e *engine) shrinkAll(failing [][]T) (min [][]T, obs []string) {
 		sort.Strings(keys)
 		var batch [][]T
 		var owner []string
-		seen := map[string]bool{}
 		for _, k := range keys {
 			for _, r := range reductions(cur[k]) {
-				r = canon(r)
-				batch = append(batch, r)
+				batch = append(batch, canon(r))
 				owner = append(owner, k)
-				seen[key(r)] = true
+			}
+			for _, r := range renamings(cur[k]) {
+				batch = append(batch, canon(r))
+				owner = append(owner, k)
 			}
 		}
-		got := e.run(batch)
+		got := e.eval(batch)
 		next := map[string][]T{}
 		moved := map[string]bool{}
 		for i, r := range batch {
 			if moved[owner[i]] {
 				continue
 			}
-			if got[i] != expected(r) && !strings.HasPrefix(got[i], "INCONCLUSIVE") {
+			if fails(r, got[i]) {
 				moved[owner[i]] = true
 				if _, isDone := done[key(r)]; !isDone {
 					next[key(r)] = r
@@ -593,8 +762,14 @@ func (e *engine) shrinkAll(failing [][]T) (min [][]T, obs []string) {
 	for _, k := range keys {
 		min = append(min, done[k])
 	}
-	obs = e.run(min)
+	obs = e.eval(min)
 	return min, obs
+}
+
+func dbg(f string, a ...any) {
+	if os.Getenv("VERIF_DEBUG") != "" {
+		fmt.Fprintf(os.Stderr, "[c13 %s] "+f+"\n", append([]any{time.Now().Format("15:04:05")}, a...)...)
+	}
 }
 
 // ---------------------------------------------------------------- check
@@ -613,11 +788,12 @@ func Run(c *core.Ctx) {
 	if c.ReplayFile != "" {
 		var f []T
 		c.LoadReplay(&f)
-		got := e.run([][]T{f})
+		f = canon(f)
+		got := e.eval([][]T{f})
 		c.Eval(1)
 		c.NontrivialN(2)
 		if want := expected(f); got[0] != want {
-			c.Violate("tree: "+key(canon(f)), fmt.Sprintf("tree %s: expected structure %s, rendered %s", key(f), want, got[0]), f)
+			c.Violate("tree: "+key(f), fmt.Sprintf("tree %s: expected structure %s, rendered %s", key(f), want, got[0]), f)
 		}
 		return
 	}
@@ -644,14 +820,17 @@ func Run(c *core.Ctx) {
 		forests = append(forests, f)
 	}
 	for i := range forests {
-		forests[i] = number(clone(forests[i]))
+		forests[i] = canon(forests[i])
 	}
 	c.Set("exhaustive_trees", exh)
 	c.Set("random_trees", nr)
 	c.Set("kinds", len(allKinds))
 
-	got := e.run(forests)
+	dbg("built; %d forests", len(forests))
+	got := e.eval(forests)
+	dbg("rendered")
 	var failing [][]T
+	var failingObs []string
 	maxNodes, nontriv := 0, 0
 	for i, f := range forests {
 		c.Eval(1)
@@ -664,21 +843,23 @@ func Run(c *core.Ctx) {
 		}
 		if nontrivial(f) {
 			nontriv++
-			c.NontrivialStr(key(canon(f)))
+			c.NontrivialStr(key(f))
 			if nontriv%5000 == 1 {
 				c.Sample(map[string]any{"tree": key(f), "structure": got[i]})
 			}
 		}
 		if got[i] != expected(f) {
 			failing = append(failing, f)
+			failingObs = append(failingObs, got[i])
 		}
 	}
 	c.Set("max_nodes", maxNodes)
 	c.Set("failing_trees_before_reduction", len(failing))
+	dbg("failing %d", len(failing))
 	if len(failing) == 0 {
 		return
 	}
-	min, obs := e.shrinkAll(failing)
+	min, obs := e.shrinkAll(failing, failingObs)
 	c.Set("canonical_witnesses", len(min))
 	for i, f := range min {
 		want := expected(f)
